@@ -73,10 +73,10 @@ func c20Names(c *Ctx) {
 		instrs(fn, func(_ *ssa.BasicBlock, _ int, ins ssa.Instruction) {
 			if sl, ok := ins.(*ssa.Slice); ok && hasOrigin(sl.X, func(o string) bool { return strings.HasSuffix(o, "desync.ChunkID).String#0") }) {
 				lowOK := sl.Low == nil
-				if k, ok := sl.Low.(*ssa.Const); ok && k.Int64() == 0 {
+				if k, ok := sl.Low.(*ssa.Const); ok && constInt64(k) == 0 {
 					lowOK = true
 				}
-				if k, ok := sl.High.(*ssa.Const); ok && k.Int64() == 4 && lowOK {
+				if k, ok := sl.High.(*ssa.Const); ok && constInt64(k) == 4 && lowOK {
 					prefixOK = true
 				}
 			}
